@@ -16,6 +16,8 @@ import Gotree.Lemmas.C15Edges
 import Gotree.Lemmas.C15Text
 import Gotree.Lemmas.C15Refuse
 import Gotree.Lemmas.C15InsertFail
+import Gotree.Lemmas.C15HeapEdits
+import Gotree.Lemmas.C15Derived
 
 namespace Gotree.C15
 open Gotree Gotree.C14
@@ -52,6 +54,74 @@ example (r : Heap.Addr) (v : Nat) : Heap.Local r (Heap.setData r v) ∧ Heap.Kee
 example (r : Heap.Addr) : Heap.Local r (Heap.allocChild r) ∧ Heap.KeepsAlloc r (Heap.allocChild r) :=
   Heap.allocChild_local r
 
+/-- table (d) read as a copy plan: none of the three reference fields CopyNode / CopyEdge assign
+    (node comments, branch comments, bitset) is shared — decided on the regenerated table -/
+theorem clone_plan_fresh : Heap.planOf Gotree.Gen.C15.fields = Heap.Plan.none := by decide
+
+/-- ★ every edit that reaches the cells it writes, and the references it stores, by navigating
+    from its own tree (or by allocating) is local: it leaves every other allocated cell alone and
+    whatever it reaches afterwards it reached before or has allocated.  (`Heap.Op`: store a scalar,
+    store reference fields / slice elements, allocate; operands = paths of reference fields from
+    the root of the edited tree, or cells allocated by the edit; the program may depend on the
+    whole heap.)  `Lemmas/C15HeapEdits.lean` lists the Go statements of the edit operations in
+    this form. -/
+theorem heap_edit_local (r : Heap.Addr) (prog : Heap.H → List Heap.Op) :
+    Heap.Local r (Heap.runProg r prog) ∧ Heap.KeepsAlloc r (Heap.runProg r prog) :=
+  Heap.runProg_local r prog
+
+/-- ★ independence of copies on the heap: `Clone` / `SubTree` (the heap program `Heap.cloneOps`, driven
+    by the regenerated table) builds the copy of the tree `t` found at path `sp` of the source in
+    cells of its own; then under ANY history of heap edits of the copy the source keeps every cell
+    content and its set of cells, and under any history of heap edits of the source the copy does.
+    This closes `twin_unchanged_partial` for all edits that are heap programs. -/
+theorem twin_unchanged (t : T) (sp : List Nat) (src : Heap.Addr) (h0 : Heap.H) (hsrc : Heap.Alloc h0 src)
+    (progs : List (Heap.H → List Heap.Op)) :
+    let h1 := Heap.exec src h0.next (Heap.cloneOps Gotree.Gen.C15.fields t sp) h0
+    let cp := h0.next
+    (Heap.SameOn h0 h1 src ∧ Heap.Disjoint h1 cp src) ∧
+    (Heap.SameOn h1 (Heap.run (progs.map (Heap.runProg cp)) h1) src ∧
+      Heap.Disjoint (Heap.run (progs.map (Heap.runProg cp)) h1) cp src) ∧
+    (Heap.SameOn h1 (Heap.run (progs.map (Heap.runProg src)) h1) cp ∧
+      Heap.Disjoint (Heap.run (progs.map (Heap.runProg src)) h1) src cp) :=
+  Heap.clone_then_edit_frame _ clone_plan_fresh t sp src h0 hsrc progs
+
+/-- … the same for `SubTree` at any node (`b` = the node is the root of the source; it only matters
+    for where the source's cells are read) -/
+theorem twin_unchanged_subtree (t : T) (sp : List Nat) (b : Bool) (src : Heap.Addr) (h0 : Heap.H)
+    (hsrc : Heap.Alloc h0 src) (progs : List (Heap.H → List Heap.Op)) :
+    let h1 := Heap.exec src h0.next (Heap.cloneOpsAt Gotree.Gen.C15.fields t sp b) h0
+    let cp := h0.next
+    (Heap.SameOn h0 h1 src ∧ Heap.Disjoint h1 cp src) ∧
+    (Heap.SameOn h1 (Heap.run (progs.map (Heap.runProg cp)) h1) src ∧
+      Heap.Disjoint (Heap.run (progs.map (Heap.runProg cp)) h1) cp src) ∧
+    (Heap.SameOn h1 (Heap.run (progs.map (Heap.runProg src)) h1) cp ∧
+      Heap.Disjoint (Heap.run (progs.map (Heap.runProg src)) h1) src cp) :=
+  Heap.subtree_then_edit_frame _ clone_plan_fresh t sp b src h0 hsrc progs
+
+/-- the anchored operations themselves, written statement by statement as heap programs
+    (`Lemmas/C15HeapEdits.lean`; the driver runs them on the real pointer graph and compares with the
+    graph after the real call): each is local to the frame it navigates from — the receiver and its
+    argument — so none of them can change a tree that shares no cell with them -/
+theorem anchored_ops_local (f : Heap.Addr) :
+    (∀ parN kn idx tr kt, Heap.Local f (Heap.runProg f (Heap.graftProg parN kn idx tr kt))) ∧
+    Heap.Local f (Heap.runProg f Heap.mergeProg) ∧
+    (∀ parN kn, Heap.Local f (Heap.runProg f (Heap.insertZeroProg parN kn))) ∧
+    (∀ parN kn idx, Heap.Local f (Heap.runProg f (Heap.insertCherryProg parN kn idx))) ∧
+    (∀ (t : T) P b, ∀ p ∈ Heap.rsProgs t P b, Heap.Local f (Heap.runProg f p)) ∧
+    (∀ slots, ∀ p ∈ Heap.rerootProgs slots, Heap.Local f (Heap.runProg f p)) :=
+  ⟨fun _ _ _ _ _ => (Heap.runProg_local f _).1, (Heap.runProg_local f _).1, fun _ _ => (Heap.runProg_local f _).1,
+   fun _ _ _ => (Heap.runProg_local f _).1, fun _ _ _ _ _ => (Heap.runProg_local f _).1,
+   fun _ _ _ => (Heap.runProg_local f _).1⟩
+
+/-- pinned variant of the plan (own breakage "CopyNode shares the comment slice"): the copy stores a
+    path INTO THE SOURCE for its comment array, so the copy program is not one that stores only its
+    own cells -/
+theorem clone_plan_shared_fails :
+    Heap.planOf (Gotree.Gen.C15.fields.map fun f =>
+      if f.owner == "Node" && f.name == "comment" then { f with treat := .shared } else f) ≠ Heap.Plan.none ∧
+    (Heap.copyNodeOps ⟨true, false, false⟩ (T.leaf "a") [0] true none 0).1.any (fun o => !o.freshRefs) = true := by
+  decide
+
 /-! ## Clone -/
 
 /-- ★ a clone is the source with every parent position reset (the copy is built parent-first);
@@ -83,6 +153,15 @@ theorem subtree_same_text (C : Newick.Codec) (t : T) (path : List Nat) (n sub : 
     simp only [subTree, subTreeBy, hn, Option.map_some, Option.some.injEq] at hs
     rw [← hs]; exact copyRecBy_eq table_observable_copied n
   rw [hsub, write_zeroPpos]
+
+/-- the derived state of a clone: `UpdateTipIndex` gives the clone the tip ids of its source, and the
+    bitsets `CopyEdge` clones are the ones `ReinitIndexes` would compute on the clone -/
+theorem clone_derived (t : T) : tipIndex (clone t) = tipIndex t ∧ bitsets (clone t) = bitsets t := by
+  rw [clone_eq]; exact zeroPpos_derived t
+
+/-- `UpdateTipIndex` on unique tip names: ids = positions in the sorted tip names, no error -/
+theorem tipIndex_unique (t : T) (h : t.tipNames.Nodup) : tipIndex t = (sortN t.tipNames, true) :=
+  tipIndex_of_nodup t h
 
 /-- the model's clone meets the Spec used as oracle -/
 theorem cloneOK_holds (t : T) : cloneOK t (clone t) = true := by
@@ -126,6 +205,15 @@ theorem subtree_tips (t : T) (path : List Nat) (n sub : T) (hn : nodeAt t path =
     rw [← hs]; exact copyRecBy_eq table_observable_copied n
   rw [hsub, zeroPpos_tipNames, zeroPpos_idem]
   exact ⟨rfl, rfl⟩
+
+/-- … of an extracted subtree (`ReinitIndexes`): those of what hangs below the node, read as a tree -/
+theorem subtree_derived (t : T) (path : List Nat) (n sub : T) (hn : nodeAt t path = some n)
+    (hs : subTree t path = some sub) : tipIndex sub = tipIndex n ∧ bitsets sub = bitsets n := by
+  have h := (subtree_tips t path n sub hn hs).2
+  have h1 := zeroPpos_derived sub
+  have h2 := zeroPpos_derived n
+  rw [h] at h1
+  exact ⟨h1.1.symm.trans h2.1, h1.2.symm.trans h2.2⟩
 
 /-- … with the branch data of the source -/
 theorem subtree_edges (t : T) (path : List Nat) (n sub : T) (hn : nodeAt t path = some n)
@@ -391,6 +479,40 @@ theorem insert_pinned_fails :
     (insertIdentical true witnessTwoNode [["a", "n"]]).1.tipNames = ["r", "n", "a"] := by
   decide +kernel
 
+/-! ## command-line glue -/
+
+/-- what `gotree graft` does (cmd/graft.go:67 drops the error of `GraftTreeOnTip`): with a tip name
+    the host does not have, the host is printed unchanged (and the exit status is 0 — checked by the
+    CLI tier against `cliGraft`) -/
+theorem cliGraft_absent_tip (host g : T) (tip : String) (h : tip ∉ host.tipNames) : cliGraft host tip g = host := by
+  unfold cliGraft
+  cases hg : graft true host tip g with
+  | ok t => exact absurd hg (graft_absent_err true host g tip h t)
+  | error m => rfl
+
+/-- … and otherwise prints the grafted tree, to which all the `graft_*` theorems apply -/
+theorem cliGraft_ok (host g t' : T) (tip : String) (h : graft true host tip g = .ok t') : cliGraft host tip g = t' := by
+  simp [cliGraft, h]
+
+/-- `gotree merge` prints a tree exactly when `Merge` accepts, and then that tree -/
+theorem cliMerge_spec (a b : T) : (cliMerge a b = none ↔ ∀ t', merge true true a b ≠ .ok t') ∧
+    ∀ t', cliMerge a b = some t' ↔ merge true true a b = .ok t' := by
+  unfold cliMerge
+  cases h : merge true true a b with
+  | ok t => simp
+  | error m => simp
+
+/-- `gotree subtree -n '^name$'` prints something only when exactly one node carries the name and it
+    is not a tip; then it prints the copy of what hangs below it -/
+theorem cliSubtree_spec (t : T) (name : String) (sub : T) (h : cliSubtree t name = some sub) :
+    ∃ n, nodesNamed t name = [(false, n)] ∧ zeroPpos sub = zeroPpos n := by
+  unfold cliSubtree at h
+  split at h
+  · rename_i n hn
+    injection h with h
+    exact ⟨n, hn, by rw [← h, copyRecBy_eq table_observable_copied, zeroPpos_idem]⟩
+  · cases h
+
 /-! ## RemoveSingleNodes -/
 
 /-- ★ removing the single-child nodes leaves every path length unchanged
@@ -405,6 +527,9 @@ theorem removeSingle_tips (t : T) : (removeSingle t).tipNames.Perm t.tipNames :=
 theorem removeSingle_noSingle (t : T) :
     (removeSingle t).noSingle = true ∧ (lengthsOK t = true → lengthsOK (removeSingle t) = true) :=
   ⟨removeSingle_noSingle' t, removeSingle_lengthsOK t⟩
+
+/-- … keeps the tip ids (the tip index is not rebuilt, and need not be) -/
+theorem removeSingle_tipIndex (t : T) : tipIndex (removeSingle t) = tipIndex t := removeSingle_tipIndex' t
 
 /-- … and changes nothing at all when there is no single-child node -/
 theorem removeSingle_id (t : T) (h : t.noSingle = true) : removeSingle t = t := removeSingleBy_id _ t h
